@@ -47,6 +47,7 @@ class Leaf(KDDataset):
         self.tag = tag
         self.disposed = 0
         self.marker = ("marker", tag)
+        self._classes = None
 
     def __len__(self):
         return self.n
@@ -61,7 +62,10 @@ class Leaf(KDDataset):
         return ("class", self.tag, self._norm(idx))
 
     def getall_class(self):
-        return [("class", self.tag, i) for i in range(self.n)]
+        # like many real datasets: hands out its internal list, not a copy
+        if self._classes is None:
+            self._classes = [("class", self.tag, i) for i in range(self.n)]
+        return self._classes
 
     def getshape_class(self):
         return (7 + self.tag,)
@@ -256,6 +260,8 @@ def body_bulk(cfg, *vals):
         bulk = ds.getall_class()
         if list(bulk) != per:
             return fail("getall_class differs from per-sample getitem_class")
+        if list(ds.getall_class()) != per:
+            return fail("a second getall_class call differs (bulk accessor is not repeatable)")
         want = [("class",) + expect(a, env, k) for k in range(n)]
         if per != want:
             return fail("per-sample accessor differs from the map")
